@@ -627,8 +627,12 @@ pixman_transform_bounds (const struct pixman_transform *matrix,
 
 	x1 = pixman_fixed_to_int (v[i].vector[0]);
 	y1 = pixman_fixed_to_int (v[i].vector[1]);
-	x2 = pixman_fixed_to_int (pixman_fixed_ceil (v[i].vector[0]));
-	y2 = pixman_fixed_to_int (pixman_fixed_ceil (v[i].vector[1]));
+	x2 = x1 + (pixman_fixed_frac (v[i].vector[0]) != 0);
+	y2 = y1 + (pixman_fixed_frac (v[i].vector[1]) != 0);
+
+	/* the box has 16-bit coordinates */
+	if (x2 > INT16_MAX || y2 > INT16_MAX)
+	    return FALSE;
 
 	if (i == 0)
 	{
